@@ -3,9 +3,15 @@
    Constructors (Model/Ops.v): mk_dnf / mk_cnf are I/O-equivalent models (fold of the clause diagrams with or / and;
    the Rust recursion on the variable index returns the same canonical array by C02), mk_conjunctive_clause /
    mk_disjunctive_clause are step-faithful node chains.  Extraction (Model/Paths.v): to_dnf = clauses of the
-   root-to-1 paths in DFS order, to_cnf = root-to-0 paths with inverted literals.  to_optimized_dnf is a heuristic and
-   is NOT modelled: every list it returns is validated at run time with the proved constructor
-   (C10_optimized_dnf_checked is the soundness of that check).
+   root-to-1 paths in DFS order, to_cnf = root-to-0 paths with inverted literals.  to_optimized_dnf is a greedy heuristic:
+   the relation of the property validates every list the implementation returns at run time with the proved constructor
+   (C10_optimized_dnf_checked is the soundness of that check), so a different but valid clause list is never an alarm.
+   The algorithm itself is inside the model as well (Model/OptDnf.v, step-faithful transcription of `_rec` over the
+   operator models; proofs in Proofs/OptDnfSem.v): on every canonical diagram it terminates within its fuel, neither
+   `assert!` can fire, its clauses stay inside the variable set, their disjunction is the function
+   (C10_optimized_dnf_sem, C10_optimized_dnf_total) and mk_dnf rebuilds the identical array
+   (C10_optimized_dnf_roundtrip).  The driver reports the model's list; the judge compares it with the implementation's
+   as evidence only.
 
    The library's OWN algorithms are inside the model as well (Model/Dnf.v, proofs in Proofs/DnfSem.v) and are what the
    correspondence driver reports (the fold / DFS-list models are recomputed alongside; a difference on in-range clauses /
@@ -17,8 +23,8 @@
    out may carry trailing `None`s (C10_to_dnf_faithful_padding_example): the equation with the DFS list holds after
    pv_trim, equivalently clause by clause under BddPartialValuation::eq (pv_eq). *)
 From Coq Require Import List NArith Bool. Import ListNotations.
-From BddVerif Require Import Model.Bdd Model.Apply Model.Ops Model.Paths Model.Valuation Model.Dnf Proofs.Sem Proofs.Canon
-  Proofs.Reflect Proofs.PvalSem Proofs.NormalForms Proofs.Paths Proofs.DnfSem.
+From BddVerif Require Import Model.Bdd Model.Apply Model.Ops Model.Paths Model.Valuation Model.Dnf Model.OptDnf Proofs.Sem Proofs.Canon
+  Proofs.Reflect Proofs.PvalSem Proofs.NormalForms Proofs.Paths Proofs.DnfSem Proofs.OptDnfSem.
 Open Scope N_scope.
 
 (* clause_sat v c: v satisfies the conjunction of the literals of c;  dclause_sat v c: their disjunction *)
@@ -212,3 +218,41 @@ Example C10_mk_dnf_faithful_out_of_range_example :
   mk_cnf_faithful 1 [[None; Some true]] = Panic.
 Proof. exact mk_dnf_faithful_out_of_range. Qed.
 Print Assumptions C10_mk_dnf_faithful_out_of_range_example.
+
+(* ============================================================================================================== *)
+(* Bdd::to_optimized_dnf itself (Model/OptDnf.v: largest common core first, remainder simplified under the `==` guard,   *)
+(* then the branching variable with the smallest restrictions; mutable partial clause threaded through)                 *)
+
+(* on a canonical diagram the recursion ends with a clause list (no panic: both assert! are dead; the fuel
+   S |support| suffices), every clause only mentions variables of the diagram, and the disjunction of the clauses is the
+   function of the diagram *)
+Theorem C10_optimized_dnf_sem : forall b, Canonical b ->
+  exists cs, to_optimized_dnf b = Ok cs /\
+    (forall c, In c cs -> cells_in_range (nvars b) c = true) /\
+    forall v, eval b v = existsb (clause_sat v) cs.
+Proof. exact opt_dnf_sem. Qed.
+Print Assumptions C10_optimized_dnf_sem.
+
+Theorem C10_optimized_dnf_total : forall b, Canonical b -> to_optimized_dnf b <> Panic /\ to_optimized_dnf b <> OutOfFuel.
+Proof. exact opt_dnf_total. Qed.
+Print Assumptions C10_optimized_dnf_total.
+
+(* rebuilding from to_optimized_dnf() returns a Bdd equal to b (the identical array) *)
+Theorem C10_optimized_dnf_roundtrip : forall b, Canonical b ->
+  exists cs, to_optimized_dnf b = Ok cs /\ mk_dnf (nvars b) cs = Ok b.
+Proof. exact optimized_dnf_roundtrip. Qed.
+Print Assumptions C10_optimized_dnf_roundtrip.
+
+(* ... also through the library's own mk_dnf recursion *)
+Theorem C10_optimized_dnf_faithful_roundtrip : forall b, Canonical b ->
+  exists cs, to_optimized_dnf b = Ok cs /\ mk_dnf_faithful (nvars b) cs = Ok b.
+Proof. exact optimized_dnf_faithful_roundtrip. Qed.
+Print Assumptions C10_optimized_dnf_faithful_roundtrip.
+
+(* instance: ex10 has the common core x1 /\ x2 (for all x0), then the two branches on x0 *)
+Example C10_optimized_dnf_example :
+  canonicalb ex10 = true /\
+  to_optimized_dnf ex10 = Ok [[None; Some true; Some true]; [Some true; Some false; Some true]; [Some false; Some true; Some false]] /\
+  mk_dnf 4 [[None; Some true; Some true]; [Some true; Some false; Some true]; [Some false; Some true; Some false]] = Ok ex10.
+Proof. exact opt_dnf_example. Qed.
+Print Assumptions C10_optimized_dnf_example.
